@@ -76,6 +76,22 @@ def gen_cases(rng, tier):
             c["meta"]["poke"] = [pk[0], repr(pk[1])]
         c["meta"]["cfg"] = cfg
         cases.append(c)
+    # a fit that is "successful" without the optimizer ever looking at the Jacobian (observations identically zero: ResidualsZero) at
+    # parameters whose DERIVATIVES are not finite while the basis functions are (tau^2 underflows): the statistics must still return
+    for j in range(12 if tier == "quick" else 120):
+        fam = ["exp2c", "exp1l", "exp1"][j % 3]
+        M = len(FAMILIES[fam][0])
+        c = gen_problem(rng, family=fam, N=M + FAMILIES[fam][1] + 2 + j % 3, ctor="new", quant=None, scalar=("f32" if j % 4 == 3 else "f64"),
+                        builder_made=(j % 5 == 0), weights=["none", "pos"][j % 2])
+        tiny = [1e-200, 1e-300, 5e-324, 1e-160][j % 4] if c["scalar"] == "f64" else [1e-30, 1e-38, 1e-45, 1e-25][j % 4]
+        c["model"]["init"] = [hx(tiny, c["scalar"])] * c["meta"]["P"]
+        Y = [o for o in c["build"] if o[0] == "obs"][-1]
+        Y[2] = [[hx(0.0, c["scalar"])] * c["meta"]["N"] for _ in Y[2]]
+        cfg = {}
+        c["ops"] = [["observe"], ["jac"], ["fit_stats", cfg, [hx(0.9, c["scalar"])]], ["observe"], ["jac"]]
+        c["meta"]["poke"] = ["zero_data_nonfinite_derivatives", repr(tiny)]
+        c["meta"]["cfg"] = cfg
+        cases.append(c)
     return cases
 
 
